@@ -5,7 +5,7 @@ import os
 from metapype.eml import validate, rule
 from metapype.eml.exceptions import MetapypeRuleError
 from metapype.model.node import Node
-from harness.hlib import nodes, snap, store_keys, part
+from harness.hlib import fresh, nodes, snap, store_keys, part
 
 _P = part(0)
 POS1 = _P % 10             # where the first plant goes (index into the base tree's node list)
@@ -52,7 +52,7 @@ def allowed(parent_name, child_name):
 
 
 def base():
-    Node.store.clear()
+    fresh()
     eml = Node("eml", id="b0")
     eml.add_attribute("packageId", "x.1.1")
     eml.add_attribute("system", "s")
@@ -98,6 +98,12 @@ def plant(target, kind, tag):
         target.add_child(Node("keyword", id=tag, content="k"), 0)
 
 
+def _tails(root):
+    """Mixed-content style tails on every node but the root (an offending node's tail must vanish with it, not migrate)."""
+    for i, n in enumerate(nodes(root)[1:]):
+        n.tail = "tail-%s" % n.id
+
+
 def expected(n, strict):
     """Independent prediction: (list of removed subtree roots in removal order is not needed) -> set of ids kept below n."""
     removed = []
@@ -141,7 +147,7 @@ def _valid_after(c, removed):
         ok = True
     except MetapypeRuleError:
         ok = False
-    Node.store.clear()
+    fresh()
     Node.store.update(Node_store)
     return ok
 
@@ -161,6 +167,8 @@ def h_prune(corrupt: int, ckind: bool, strict: bool) -> str:
             ns[corrupt].add_attribute("zzz", "1")          # attribute error on a kept node
         else:
             ns[corrupt].content = "junk" if ns[corrupt].content is None else None   # content error on a kept node
+    if ckind:
+        _tails(eml)
     original = nodes(eml)
     fields = {n.id: (n.name, n.content, n.tail, tuple(sorted(n.attributes.items())), [c.id for c in n.children]) for n in original}
     want_removed_roots = expected(eml, strict)
